@@ -654,9 +654,11 @@ def gen_roundtrip(r, container=None):
             # file fails inside torch with no repo code involved): the zip layout only for those
             case["legacy"] = r.random() < 0.4 and case["dtype"] not in ("uint16", "uint32", "uint64")
         if c == "npz":
-            case["layout"] = r.choice(["positional", "named", "mixed"])
+            case["layout"] = r.choice(["positional", "named", "mixed", "digits"])
             case["compressed"] = r.random() < 0.3
             case["key"] = r.choice([None, None, "arr_0", "arr_1", "b", "a"])
+            if case["layout"] == "digits":  # entry names that consist of digits are names, not positions
+                case["key"] = r.choice([None, "0", "7", "1089"])
         if c == "hdf5":
             case["layout"] = r.choice(["single", "nested", "nested"])
             case["key"] = r.choice([None, None, "x", "g/h/y", "g/z"]) if case["layout"] == "nested" else r.choice([None, "x"])
@@ -709,6 +711,9 @@ def build(case, root):
             data = npz_bytes({}, positional=arrs, compressed=case["compressed"])
         elif case["layout"] == "named":
             ent = {"a": arrs[0], "b": arrs[1], "arr_0": arrs[2]}
+            data = npz_bytes(ent, compressed=case["compressed"])
+        elif case["layout"] == "digits":
+            ent = {"0": arrs[0], "7": arrs[1], "1089": arrs[2], "arr_0": arrs[1]}
             data = npz_bytes(ent, compressed=case["compressed"])
         else:
             ent = {"arr_0": arrs[0], "b": arrs[1], "arr_1": arrs[2]}
@@ -962,6 +967,9 @@ def roundtrip_phase(ctx, driver, root):
 
 # fixed cases that must always be covered (the defect found while building this check, extremes)
 CORPUS_RT = [
+    dict(kind="roundtrip", container="npz", seed=31, shape=[5], dtype="float64", layout="digits", compressed=False, key="1089", access="path"),
+    dict(kind="roundtrip", container="npz", seed=32, shape=[2, 3], dtype="int16", layout="digits", compressed=True, key="0", access="bytesio"),
+    dict(kind="roundtrip", container="npz", seed=33, shape=[4], dtype="float32", layout="digits", compressed=False, key="7", access="file", dtype_arg="float64"),
     # PyTorch's sequential (pre-1.6) layout, by name, through an open file, from memory, with and without a cast
     dict(kind="roundtrip", container="pt", seed=21, shape=[7], dtype="float32", legacy=True, access="path"),
     dict(kind="roundtrip", container="pt", seed=22, shape=[4, 3], dtype="int16", legacy=True, access="path", dtype_arg="float64"),
